@@ -238,6 +238,10 @@ def transform_case(case, tr, rng_params):
             c2['minv'] = [a * num + b * den, den]
         # user criteria follow the value map (sums are not affine-invariant: excluded by the generator)
         c2['crits'] = [[c[0], a * c[1] + b] if c[0] in ('peak', 'peakacc') else c for c in case.get('crits', [])]
+    if kind == 'rescale':
+        # the same integers with a finer binary point: every value, threshold and min_delta divided by 2**j
+        c2['fb'] = case['fb'] + tr[1]
+        c2['crits'] = [c for c in case.get('crits', []) if c[0] != 'sum']
     if kind == 'mono':
         vals = sorted(set(x for x in case['k'] if x is not None))
         f = dict((v, (i + 1) ** 2 + 3 * i) for i, v in enumerate(vals))   # strictly increasing
@@ -285,6 +289,9 @@ def gen_item_C16(rng, idx, tier):
         fill = None
     trs.append(['pad', [[rng.randint(0, 2), rng.randint(0, 2)] for _ in range(nd)], fill])
     trs.append(['affine', rng.choice([1, 2, 4, 8]), rng.randint(-20, 20)])
+    # magnitudes that are large, and spacings that are tiny, relative to the values (exact in float64)
+    trs.append(['affine', rng.choice([1, 2]), rng.choice([2 ** 20, -2 ** 22, 10 ** 6, 2 ** 30])])
+    trs.append(['rescale', rng.choice([20, 30, 40])])
     trs.append(['mono'])
     thr = None
     if vals:
@@ -340,7 +347,7 @@ def eval_C16(item):
         res['corr'].append('regions differ from the model')
     res['tags'].append('distinct' if distinct_above(case, d0) else 'ties')
     for tr in item['trs']:
-        compare_transformed(res, case, d0, st0, tr, tr[0] + (str(tr[1:]) if tr[0] in ('perm', 'flip', 'unit', 'affine') else ''))
+        compare_transformed(res, case, d0, st0, tr, tr[0] + (str(tr[1:]) if tr[0] in ('perm', 'flip', 'unit', 'affine', 'rescale') else ''))
     # raising the threshold (distinct values, no pruning): restriction of every structure
     if item['thr'] is not None and distinct_above(case, d0) and pc.no_pruning(case):
         c2 = copy.deepcopy(case)
@@ -368,6 +375,7 @@ def gen_item_C17(rng, idx, tier):
     axes = [a for a in range(nd) if rng.random() < 0.6] or [rng.randrange(nd)]
     case = gen.gen_compute_case(rng, force={'shape': shape, 'periodic': axes})
     case['per_as_list'] = len(axes) > 1 or rng.random() < 0.5
+    case['per_negative'] = rng.random() < 0.3       # axes spelled as negative numbers (numpy convention)
     case['dtype'] = 'float64'
     if rng.random() < 0.5:
         vals = list(range(1, n + 1))
